@@ -190,16 +190,20 @@ def P_C07(ctx, log, **kw):
 
 def P_C10(ctx, log, lazy=True, **kw):
     if not lazy: return []
-    begins, _, _, _ = index_trace(ctx, log)
+    begins, done, _, _ = index_trace(ctx, log)
     dem = demands_of(ctx, log)
     out = []
     for (n, sid, t, _, _) in begins:
         for e in ctx.edges:
-            if e['a'] != sid: continue
+            if e['a'] != sid or e['b'] == sid: continue
             lim = act(t, e['plain'])
             for (ds, dt), (dn, _) in dem.items():
-                if ds == e['b'] and dn < n and dt < lim and not any(b[1] == ds and b[2] == dt and b[0] < n for b in begins):
+                if ds != e['b'] or not (dn < n and dt < lim): continue
+                if not any(b[1] == ds and b[2] == dt and b[0] < n for b in begins):
                     out.append(f'{sid} began {t} (event {n}) while its consumer {ds} still has the earlier step {dt} outstanding')
+                elif done.get((ds, dt), len(log)) > n:
+                    # begun but not finished (step and output retrieval): still outstanding
+                    out.append(f'{sid} began {t} (event {n}) while its consumer {ds} is still inside its earlier step {dt}')
     return out
 
 
